@@ -49,7 +49,8 @@ CONFIG = {
                  'reach:_build_atoms:new_atom = atom | set([phi, Lang.X(LNot(sf))])',
                  'scc:self_fulfilling', 'scc:rejected_not_self_fulfilling',
                  'style:text', 'root:U', 'root:R', 'root:G', 'block:every_seed',
-                 'family:long_distance', 'history:mutation'],
+                 'family:long_distance', 'history:mutation',
+                 'family:mixed_polarity'],
     'rule': ('cases = (Kripke structure, LTL formula A g, presentation '
              'style); enumerated: class representatives of all total '
              'structures with <=2 states (quick; <=3 thorough) over {p,q} x '
@@ -322,9 +323,76 @@ def hostile_formulas():
     ]
 
 
+def mixed_polarity_formulas():
+    """The same eventuality u once under an odd and once under an even
+    number of negations, in both operand orders of every binary operator:
+    (F G not p) and (F p), (X not F p) and (F p), (not (p U q)) U (F (p U q))
+    ...  An until that is promised in one place and refuted in another must
+    be fulfilled exactly where it is promised; anything that classifies a
+    subformula once (by polarity, by first occurrence) gets one of the two
+    orders wrong."""
+    p, q = ('ap', 'p'), ('ap', 'q')
+    us = [('F', p), ('U', p, q), ('G', p), ('R', p, q),
+          ('F', ('and', p, ('X', q))), ('U', ('not', q), p),
+          # compounds with an eventuality nested inside them
+          ('X', ('F', p)), ('or', ('F', p), q), ('U', q, ('F', p)),
+          ('X', ('U', p, q)), ('X', ('G', p)), ('and', ('G', p), q),
+          ('or', ('U', p, q), ('X', p)), ('F', ('or', ('G', p), q))]
+    neg = [lambda u: ('not', u), lambda u: ('X', ('not', u)),
+           lambda u: ('F', ('not', u)), lambda u: ('G', ('not', u)),
+           lambda u: ('not', ('X', u))]
+    pos = [lambda u: u, lambda u: ('X', u), lambda u: ('F', u),
+           lambda u: ('G', u)]
+    out = []
+    for u in us:
+        for N in neg:
+            for P in pos:
+                a, b = N(u), P(u)
+                for op in ('and', 'or', 'U', 'R', 'imply'):
+                    out.append((op, a, b))
+                    out.append((op, b, a))
+                out.append(('and', a, q, b))
+                out.append(('or', b, ('not', q), a))
+    def distinct_temporal(g, acc):
+        if g[0] in TEMPORAL:
+            acc.add(g)
+        for c in g[1:]:
+            if isinstance(c, tuple):
+                distinct_temporal(c, acc)
+        return acc
+    # the tableau grows with the number of DISTINCT temporal subformulas
+    return [g for g in out if len(distinct_temporal(g, set())) <= 4]
+
+
+def mixed_polarity_structures():
+    P, Q, N, PQ = {'p'}, {'q'}, set(), {'p', 'q'}
+    return [NK(range(3), [0b010, 0b100, 0b100], [N, P, N]),
+            NK(range(2), [0b10, 0b10], [P, N]),
+            NK(range(3), [0b010, 0b100, 0b100], [Q, P, Q]),
+            NK(range(2), [0b10, 0b10], [N, P]),
+            NK(range(2), [0b11, 0b10], [P, Q]),
+            NK(range(3), [0b010, 0b100, 0b100], [P, Q, N]),
+            NK(range(3), [0b110, 0b010, 0b100], [N, P, Q]),
+            NK(range(3), [0b010, 0b101, 0b100], [P, N, PQ]),
+            NK(range(3), [0b010, 0b100, 0b001], [P, N, Q]),
+            NK(range(4), [0b0110, 0b0010, 0b1000, 0b1001], [PQ, P, N, Q])]
+
+
 def run(ctx):
     attach()
     r = gen.rng(ctx.seed, PROP, 'main')
+    k = 0
+    mpf = mixed_polarity_formulas()
+    for si, nk in enumerate(mixed_polarity_structures()):
+        K = None
+        for gi, g in enumerate(mpf):
+            k += 1
+            if not ctx.quick or si < 2 or (gi + si) % 4 == 0:
+                if ctx.mine(k):
+                    if K is None:
+                        K = mcwork.kripke_of(nk)
+                    LOG.sig['family:mixed_polarity'] += 1
+                    run_case(nk, g, 3 * k, K)
     P1 = gen.enum_ltl_path(1)
     P2 = [g for g in gen.enum_ltl_path(2)[len(P1):]
           if count_ops(g, TEMPORAL) <= 3]
